@@ -101,6 +101,17 @@ def main():
     need("src/shared/protocol.rs", r"fn hash<T>\(&mut self, part: ProtocolPart\) \{\s*part\.hash\(&mut self\.0\);\s*any::type_name::<T>\(\)\.hash\(&mut self\.0\);\s*\}", "ProtocolHasher::hash feeds part then type name")
     consts.append(("protocolKinds", len(variants), "number of ProtocolPart variants (discriminants 0..n-1 in declaration order)"))
 
+    # --- Mutations::send: can_pack and the split condition (shape anchors; the model is Model/Packing.lean)
+    need("src/server/replication_messages/mutations.rs",
+         r"fn can_pack\(message_size: usize, add: usize, mtu: usize\) -> bool \{\s*let dangling = message_size % mtu;\s*\(dangling > 0\) && \(\(dangling \+ add\) <= mtu\)\s*\}",
+         "can_pack body")
+    need("src/server/replication_messages/mutations.rs",
+         r"if body_size != 0\s*&& !can_pack\(header_size \+ body_size, mutations_size, max_size\)\s*&& !can_pack\(header_size \+ mutations_size, body_size, max_size\)",
+         "split condition of Mutations::send")
+    need("src/server/replication_messages/mutations.rs",
+         r"if !chunks_range\.is_empty\(\) \|\| track_mutate_messages \{", "final push of Mutations::send")
+    consts.append(("packingAnchors", 3, "number of source anchors of Mutations::send that matched"))
+
     out = ["/- GENERATED by tools/extract_consts.py from /repo on every run.  Do not edit. -/",
            "namespace Replicon.Consts", ""]
     for name, value, doc in consts:
